@@ -29,7 +29,7 @@ func TestMain(m *testing.M) {
 		Rule: "sub-check octree: rapid-generated element sets (triangles with own or shared vertices, point clouds with any index list, line strips; 1..48 elements; layouts local / spread / clustered / grid-aligned / coincident copies; " +
 			"coordinates within +-40) built through Mesh.OctTree (automatic depth), Mesh.OctTreeDepth(0..6) or Mesh.OctTreeWithAttributeAndDepth on a non-position attribute (the position attribute then holds a decoy), " +
 			"and 1..6 queries per set; every query runs ClosestPoint, ElementsContainingPoint, ElementsWithinRange, ElementsIntersectingRay and TraverseIntersectingRay (plain and with a shrinking max) and BoundingBox. " +
-			"Query points inside / outside / far from the bounds, exactly at element vertices, at vertex+tiny offset, on box faces, at midpoints; radii 0, exact vertex distance, 0..diameter, all-embracing; " +
+			"Query points inside / outside / far from the bounds, exactly at element vertices, at vertex+tiny offset, on elements (convex combinations of their vertices), on box faces, at midpoints; radii 0, exact vertex distance, 0..diameter, all-embracing; " +
 			"rays from inside and outside, axis-parallel (incl. -0 components), aimed exactly at vertices, with ranges [0,1000], [0,exact target distance], positive and negative minimum. " +
 			"Oracle: exhaustive scan over the same Element objects (primitive.Scope(attr) inside ScanPrimitives, checked against the case's own vertex data), own clamp / slab reference for the box predicates. " +
 			"Sub-check bvh: triangle meshes with normals; rendering.NewBVHFromMesh (split axis seeded from the case), HitList, rendering.NewBVH (octree of hittables) and rendering.NewMesh (octree traversal) must give the hit flag and distance of the per-triangle minimum. " +
